@@ -17,6 +17,7 @@ import (
 	"bufio"
 	"bytes"
 	"encoding/hex"
+	"encoding/json"
 	"fmt"
 	"os"
 	"os/exec"
@@ -167,7 +168,7 @@ func (h *c04Run) violate(key, what, api, src, opts, env, expect, got string) {
 		return
 	}
 	h.size[key] = sz
-	h.best[key] = Violation{What: what, Key: key, Input: map[string]string{"api": api, "source": c04Show(src), "options": opts, "env": env}, Expect: expect, Got: got}
+	h.best[key] = Violation{What: what, Key: key, Input: map[string]string{"api": api, "source": c04Show(src), "source_hex": hex.EncodeToString([]byte(src)), "options": opts, "env": env}, Expect: expect, Got: got}
 }
 
 func isNilValue(v interface{}) bool {
@@ -334,10 +335,73 @@ func c04Child() {
 	}
 }
 
+// c04Replay re-runs the single input of a replay file written by bin/check (replays/C04/cex-*.json)
+func c04Replay(c *Ctx, h *c04Run) {
+	r := c.R
+	raw, err := os.ReadFile(c.Replay)
+	if err != nil && !strings.HasPrefix(c.Replay, "/") {
+		raw, err = os.ReadFile("../" + c.Replay) // bin/check runs the harness from harness/
+	}
+	if err != nil {
+		r.Mismatch("replay", c.Replay, "readable replay file", err.Error())
+		return
+	}
+	var f struct {
+		Violation struct {
+			Key   string            `json:"key"`
+			Input map[string]string `json:"input"`
+		} `json:"violation"`
+	}
+	if err := json.Unmarshal(raw, &f); err != nil || f.Violation.Input == nil {
+		r.Mismatch("replay", c.Replay, "a counterexample replay with an input record", fmt.Sprint(err))
+		return
+	}
+	in := f.Violation.Input
+	srcB, _ := hex.DecodeString(in["source_hex"])
+	src := string(srcB)
+	if in["source_hex"] == "" {
+		src = in["source"]
+	}
+	var o c04Opts
+	optStr := in["options"]
+	if strings.HasPrefix(optStr, "nesting bomb ") {
+		for _, b := range c04Bombs(64 * 1024) {
+			if b.Name == strings.TrimPrefix(optStr, "nesting bomb ") {
+				src = b.Src
+			}
+		}
+		o = c04Opts{Env: 2, Undef: true, NoOpt: true}
+	} else {
+		for _, cand := range c04AllOpts() {
+			if cand.String() == optStr {
+				o = cand
+			}
+		}
+	}
+	envs := c04RunEnvs()
+	switch in["api"] {
+	case "parser.Parse", "expr.Eval":
+		h.parseAndEval(src, envs)
+	default:
+		h.compileAndRun(src, o, envs)
+	}
+	r.Note("replayed %s on %s with %s", in["api"], c04Show(src), o.String())
+	for _, rt := range h.retries {
+		h.check(rt.api, rt.src, rt.opts, rt.env, c04CallD(rt.f, 120*time.Second))
+	}
+	for _, v := range h.best {
+		r.Violate(v)
+	}
+}
+
 func runC04(c *Ctx) {
 	r := c.R
 	r.Rule = "outcome class of parser.Parse / expr.Compile / expr.Eval / expr.Run under recover + 5 s deadline for: 300 hand-written failure-mode sources and the zoo generator's sources, their byte/token mutations, random byte strings up to 64 KiB (random bytes, ASCII, multi-plane UTF-8, token soup), 31 nesting bombs of 64 KiB (child process), the full 6400-element option matrix x 4 sources plus random option subsets on every stream, 12 run-time environments (nil, zero, wrongly typed, panicking members); non-trivial = non-empty input that reached an outcome; distinct by (api, options, source)"
 	h := &c04Run{c: c, best: map[string]Violation{}, size: map[string]int{}}
+	if c.Replay != "" {
+		c04Replay(c, h)
+		return
+	}
 	nMut, nRand, nGen := 1500, 600, 250
 	if c.Thorough() {
 		nMut, nRand, nGen = 60000, 20000, 5000
